@@ -47,14 +47,14 @@ func main() {
 
 // Control is the scenario's control section as far as `vh run` understands it.
 type Control struct {
-	Restarts []uint32 `json:"restarts"` // clean stop + start after these heights
-	Wal      bool     `json:"wal"`
-	DumpAt   []uint32 `json:"dumpAt"` // heights at which the full canonical dump digest is recorded
-	API      bool     `json:"api"`    // start the real API server and record its answers
-	APIAt    []uint32 `json:"apiAt"`  // heights after which the API is queried (default: the tip)
-	APILight []uint32 `json:"apiLight"` // heights after which only the ledger-level read methods are queried (issuance, rates, rich lists, bank)
-	AllHist  bool     `json:"allHist"`
-	LegacySchema string `json:"legacySchema"` // "pre-v4" | "pre-v5": the balance table predates those asset lists and is migrated at start-up
+	Restarts     []uint32 `json:"restarts"` // clean stop + start after these heights
+	Wal          bool     `json:"wal"`
+	DumpAt       []uint32 `json:"dumpAt"`   // heights at which the full canonical dump digest is recorded
+	API          bool     `json:"api"`      // start the real API server and record its answers
+	APIAt        []uint32 `json:"apiAt"`    // heights after which the API is queried (default: the tip)
+	APILight     []uint32 `json:"apiLight"` // heights after which only the ledger-level read methods are queried (issuance, rates, rich lists, bank)
+	AllHist      bool     `json:"allHist"`
+	LegacySchema string   `json:"legacySchema"` // "pre-v4" | "pre-v5": the balance table predates those asset lists and is migrated at start-up
 }
 
 type traceWriter struct {
